@@ -5,11 +5,16 @@ From NIR Require Export Model.Graph.
 
 Inductive nexpr :=
 | NCons (k : kind) (args : list (string * pval))
+| NTyped (e : nexpr) (tin tout : ty)     (* node.input_type = ...; node.output_type = ... *)
 | NGraph (children : list (string * nexpr)) (edges : list (string * string)) (meta : pval).
+
+Definition set_types (n : node) (tin tout : ty) : node :=
+  match n with Leaf k f _ _ => Leaf k f tin tout | g => g end.
 
 Fixpoint eval (e : nexpr) : result node :=
   match e with
   | NCons k args => construct k args
+  | NTyped e' tin tout => do n <- eval e'; Ok (set_types n tin tout)
   | NGraph ch es meta =>
     do ch' <- (fix go (l : list (string * nexpr)) : result (list (string * node)) :=
                  match l with
